@@ -71,9 +71,13 @@ class FakeJob:
     def __init__(self, node):
         self.job_id = node["id"]
         self.outputs = list(node["outs"])
+        self.kind = node["kind"]
 
-    # python/pypipegraph2/jobs.py, MultiFileGeneratingJob.compare_hashes / FileInvariant.compare_hashes
     def compare_hashes(self, old_hash, new_hash):
+        if self.kind == "Always":
+            # python/pypipegraph2/jobs.py, Job.compare_hashes (ParameterInvariant: the record of an output is a plain string)
+            return old_hash == new_hash
+        # MultiFileGeneratingJob.compare_hashes / FileInvariant.compare_hashes (record of an output: hash, mtime, size)
         return new_hash["hash"] == old_hash.get("hash", "")
 
 
@@ -83,15 +87,27 @@ class FakeRunner:
         self.job_inputs = {n["id"]: set(n["inputs"]) for n in nodes}
 
 
-def t_rec(r):
-    """harness record -> production-shaped JSON record"""
+KINDS = {}  # job id -> kind, remembered across the evaluations of a chain (records of absent jobs stay translatable)
+
+
+def t_rec(r, producer=None):
+    """harness record -> production-shaped JSON record. Output / Ephemeral jobs: per output {"hash", "mtime", "size"}
+    (file generating jobs); Always jobs: per output a plain string as ParameterInvariant writes it - "" for the
+    harness value "0", so that falsy-but-legal records occur. The stamp of an Always job's record goes into an extra
+    key that no consumer reads."""
     payload, _, stamp = r.partition("|")
+    always = KINDS.get(producer) == "Always"
     d = {}
     for kv in payload.split(";"):
         if not kv:
             continue
         k, _, v = kv.partition("=")
-        d[k] = {"hash": v, "mtime": int(stamp) if stamp.isdigit() else 0, "size": len(v)}
+        if always:
+            d[k] = "" if v == "0" else v
+        else:
+            d[k] = {"hash": v, "mtime": int(stamp) if stamp.isdigit() else 0, "size": len(v)}
+    if always and stamp:
+        d["//stamp"] = stamp
     return json.dumps(d, sort_keys=True)
 
 
@@ -101,7 +117,7 @@ def t_hist(h):
         if k.endswith("!!!"):
             out[k] = v
         else:
-            out[k] = t_rec(v)
+            out[k] = t_rec(v, k.split("!!!")[0])
     return out
 
 
@@ -175,8 +191,8 @@ def observe(e):
 DIVERGENCE_PROPS = {
     # which properties a difference in one observable speaks about (the Rust-bound run of the very same call
     # sequence satisfied the reference oracles; the extension-bound run decided differently)
-    "ready-extra": ["C04", "C15"],
-    "ready-missing": ["C03", "C15"],
+    "ready-extra": ["C04", "C15"],      # + C12 when the evaluation re-evaluates an unchanged project and the job is an Output
+    "ready-missing": ["C03", "C15"],    # + C01 when the evaluation has no failure / abort
     "running": ["C17"],
     "cleanup": ["C13"],
     "upf": ["C07"],
@@ -184,7 +200,7 @@ DIVERGENCE_PROPS = {
 }
 
 
-def ident(x):
+def ident(x, *_a):
     return x
 
 
@@ -204,6 +220,7 @@ def replay_eval_(ext, hc, chain, ev, out, verbose, stats, raw, t_rec, t_hist):
     out.f.flush()
     runner = FakeRunner(ev["nodes"])
     kinds = {n["id"]: n["kind"] for n in ev["nodes"]}
+    KINDS.update(kinds)
     cb = {"n": 0, "true": 0, "false": 0}
 
     def compare(up, down, last, now):
@@ -249,8 +266,8 @@ def replay_eval_(ext, hc, chain, ev, out, verbose, stats, raw, t_rec, t_hist):
                     if rec is not None:
                         v(["C02"], "pybridge-upstream-output-not-reportable", kinds.get(up, "?"), "before starting %s: get_job_output(%s) raised %r through the extension, the Rust binding reported %r" % (t["job"], up, ex, rec))
                         continue
-                if rec is not None and got != t_rec(rec):
-                    v(["C02", "C11"], "pybridge-upstream-output-differs", kinds.get(up, "?"), "before starting %s: get_job_output(%s) = %r through the extension, %r expected" % (t["job"], up, got, t_rec(rec)))
+                if rec is not None and got != t_rec(rec, up):
+                    v(["C02", "C11"], "pybridge-upstream-output-differs", kinds.get(up, "?"), "before starting %s: get_job_output(%s) = %r through the extension, %r expected" % (t["job"], up, got, t_rec(rec, up)))
             continue
         stats["present"] = sync_disk(t["disk"], stats["present"])
         if op == "misuse":
@@ -261,7 +278,7 @@ def replay_eval_(ext, hc, chain, ev, out, verbose, stats, raw, t_rec, t_hist):
                     if what == "start":
                         e.event_now_running(job)
                     elif what in ("success", "success-same"):
-                        e.event_job_success(job, t_rec(payload))
+                        e.event_job_success(job, t_rec(payload, job))
                     elif what == "failure":
                         e.event_job_failure(job)
                     elif what == "cleanup":
@@ -289,7 +306,7 @@ def replay_eval_(ext, hc, chain, ev, out, verbose, stats, raw, t_rec, t_hist):
             elif op == "start":
                 e.event_now_running(job)
             elif op == "ok":
-                e.event_job_success(job, t_rec(t["rec"]))
+                e.event_job_success(job, t_rec(t["rec"], job))
             elif op == "fail":
                 e.event_job_failure(job)
             elif op == "cleanup":
@@ -332,9 +349,12 @@ def replay_eval_(ext, hc, chain, ev, out, verbose, stats, raw, t_rec, t_hist):
                     extra = sorted(set(obs[k]) - set(t[k]))
                     missing = sorted(set(t[k]) - set(obs[k]))
                     if extra:
-                        v(DIVERGENCE_PROPS["ready-extra"], "pybridge-offers-extra-job", "/".join(sorted({kinds.get(j, "?") for j in extra})), "after %s(%s) the extension offers %r which the Rust binding (same calls, same history, same outputs present) does not" % (op, job, extra))
+                        props = list(DIVERGENCE_PROPS["ready-extra"])
+                        if ev.get("noop") and any(kinds.get(j) == "Output" for j in extra):
+                            props.append("C12")
+                        v(props, "pybridge-offers-extra-job", "/".join(sorted({kinds.get(j, "?") for j in extra})), "after %s(%s) the extension offers %r which the Rust binding (same calls, same history, same outputs present) does not" % (op, job, extra))
                     if missing:
-                        v(DIVERGENCE_PROPS["ready-missing"], "pybridge-does-not-offer-job", "/".join(sorted({kinds.get(j, "?") for j in missing})), "after %s(%s) the extension does not offer %r which the Rust binding offers" % (op, job, missing))
+                        v(DIVERGENCE_PROPS["ready-missing"] + ["C01"], "pybridge-does-not-offer-job", "/".join(sorted({kinds.get(j, "?") for j in missing})), "after %s(%s) the extension does not offer %r which the Rust binding offers" % (op, job, missing))
                 else:
                     v(DIVERGENCE_PROPS[k], "pybridge-query-differs", k, "after %s(%s) %s is %r through the extension, %r through the Rust binding" % (op, job, k, obs[k], t[k]))
             return viol, "stop"
@@ -353,8 +373,10 @@ def replay_eval_(ext, hc, chain, ev, out, verbose, stats, raw, t_rec, t_hist):
             ks = sorted(set(got) ^ set(want))
             dv = sorted(k for k in set(got) & set(want) if got[k] != want[k])
             if faulty:
-                out.count("pybridge_diverged_under_fault")
-                return viol, "diverged"
+                # every call result and every query result was identical up to here, so this is not the two processes
+                # having offered different jobs when the fault arrived: what is recorded after the interruption differs
+                v(["C08", "C09", "C11", "C18"], "pybridge-history-differs", "after-interruption:" + ("keys" if ks else "values"), "after an evaluation with failures / an abort the history returned through the extension differs although every call and query result was identical: keys only on one side %r; differing values %r" % (ks[:6], [(k, got[k], want[k]) for k in dv[:3]]))
+                return viol, "stop"
             v(["C11", "C18"], "pybridge-history-differs", "keys" if ks else "values", "history returned through the extension differs: keys only on one side %r; differing values %r" % (ks[:6], [(k, got[k], want[k]) for k in dv[:3]]))
             return viol, "stop"
         out.count("pybridge_histories_equal")
@@ -386,6 +408,7 @@ def main():
                 continue
             chain = json.loads(line)
             stats = {"present": set()}
+            KINDS.clear()
             # fresh directory per chain
             for n in os.listdir("."):
                 os.remove(n)
